@@ -279,7 +279,7 @@ def judge_repair(e: Dict[str, Any]) -> Tuple[List[Tuple[str, str]], List[str], s
         if _exc_name(r) == "UnknownResultError" or undecided:
             inc.append(f"repair({s!r}) raised {_exc_name(r)} at {r['exc']['where']}")
         else:
-            vio.append((f"repair:raises:{_exc_name(r)}:{_func(r['exc']['where'])}:input-{kind}",
+            vio.append((f"repair:raises:{_exc_name(r)}:{_func(r['exc']['where'])}",
                         f"repair({how} {s!r}, fix_timeout_seconds={e['fix_timeout']}) raised {_exc_name(r)}"
                         f"({r['exc']['msg'][:100]!r}) at {r['exc']['where']}; expected Some(valid tree) or Nothing"))
     elif "nothing" in r:
